@@ -155,7 +155,7 @@ _UNARY = ["sqrt", "abs", "absolute", "exp", "log", "sin", "cos", "tan", "round",
 def _unary(interp, name, args, kw, st, node):
     x = arrv(args[0])
     base = name.rsplit(".", 1)[1]
-    base = {"absolute": "abs", "around": "round", "fabs": "abs"}.get(base, base)
+    base = {"absolute": "abs", "around": "round", "fabs": "abs", "rint": "round"}.get(base, base)
     if x.has_const and isinstance(x.const, (int, float)) and base == "sqrt" and x.const >= 0:
         import math
 
